@@ -227,6 +227,10 @@ def run_op(fam: Family, op, input_value=None):
         if kind == "define":
             fam.define()
             return ("ok", "defined")
+        if kind == "to_jsonb+opt":
+            import orjson
+            out = fam.instance(role).to_jsonb(orjson_options=orjson.OPT_SORT_KEYS, **kw)     # an explicit encoder argument
+            return ("ok", normalise(out))
         if kind.startswith("to_"):
             out = getattr(fam.instance(role), kind)(**kw)
             return ("ok", normalise(out))
@@ -252,6 +256,6 @@ def ops_for(family, support, dialect_names=("n", "D1", "D2")):
     _, roles = source(family, "eager", support)
     kinds = ["to_dict", "from_dict"]
     if family == "formats":
-        kinds += ["to_jsonb", "from_json", "to_msgpack", "from_msgpack"]
+        kinds += ["to_jsonb", "from_json", "to_msgpack", "from_msgpack", "to_jsonb+opt"]
     dls = dialect_names if support else ("n",)
     return [(k, dl, r) for r in roles for k in kinds for dl in dls]
